@@ -76,6 +76,26 @@ func (t *Collection) reclaimMarkUpdate(nloc *nodeLoc,
 	return n
 }
 
+// markAllUnlocked marks every cached, not yet marked node of a tree that no
+// version can reach any more.  Caller holds rootLock.
+func (t *Collection) markAllUnlocked(n *node, reclaimMark *node) {
+	if n == nil || n == reclaimMark {
+		return
+	}
+	if n.next == nil {
+		n.next = reclaimMark
+	}
+	if n.next != reclaimMark {
+		return
+	}
+	if !n.left.isEmpty() {
+		t.markAllUnlocked(n.left.Node(), reclaimMark)
+	}
+	if !n.right.isEmpty() {
+		t.markAllUnlocked(n.right.Node(), reclaimMark)
+	}
+}
+
 func (t *Collection) reclaimNodesUnlocked(n *node,
 	reclaimLater *[3]*node, reclaimMark *node) int64 {
 	if n == nil {
@@ -220,6 +240,7 @@ func (t *Collection) mkRootNodeLoc(root *nodeLoc) *rootNodeLoc {
 	}
 	rnl.refs = 1
 	rnl.root = root
+	rnl.superseded = false
 	rnl.next = nil
 	rnl.chainedCollection = nil
 	rnl.chainedRootNodeLoc = nil
